@@ -1339,5 +1339,7 @@ mod scale_function {
 }
 
 const fn weighted_average(x1: f64, w1: f64, x2: f64, w2: f64) -> f64 {
-    (x1 * w1 + x2 * w2) / (w1 + w2)
+    // x1 <= x2 at every call site; rounding must not push the result outside [x1, x2]
+    let x = (x1 * w1 + x2 * w2) / (w1 + w2);
+    x.min(x2).max(x1)
 }
